@@ -103,17 +103,13 @@ StreamsManagerBase<MAX_STREAMS> {
         let wakers = unsafe { &* self.wakers.get() };
         #[cfg(feature = "verif")] crate::verif::note(crate::verif::SM_WAKE_BEFORE_READ, stream_id as u64);
         #[cfg(feature = "verif")] crate::verif::point(crate::verif::SM_WAKE_BEFORE_READ);
-        match unsafe {wakers.get_unchecked(stream_id as usize)} {
-            Some(waker) => waker.wake_by_ref(),
-            None => {
-                // try again, syncing
-                ogre_sync::lock(&self.wakers_lock);
-                if let Some(waker) = unsafe {wakers.get_unchecked(stream_id as usize)} {
-                    waker.wake_by_ref();
-                }
-                ogre_sync::unlock(&self.wakers_lock);
-            }
+        // the waker must be read & used under the lock: the stream replaces it (on `register_stream_waker()`) and removes it
+        // (on `report_stream_dropped()`) concurrently -- an unlocked read could call into a waker that has just been freed
+        ogre_sync::lock(&self.wakers_lock);
+        if let Some(waker) = unsafe {wakers.get_unchecked(stream_id as usize)} {
+            waker.wake_by_ref();
         }
+        ogre_sync::unlock(&self.wakers_lock);
     }
 
     /// Wakes all streams -- suitable for EOL procedures
